@@ -32,6 +32,7 @@ def check(ctx, tier):
     ragged_slice(ctx, tk)
     padded(ctx, tk)
     padded_fresh(ctx, tk)
+    padded_degenerate(ctx, tk)
     npsindexable(ctx, tk)
     coh = ctx.cached("coherence", lambda: Coherence(tk))
     fs = [AF + n for n in ("concatenate", "where", "zeros_like", "ones_like", "empty_like")] + \
@@ -290,6 +291,34 @@ def padded_fresh(ctx, tk):
         fr = tk.E.fresh(tm, fa)
         ctx.decide("C08.g", f, what, True if fr[0] == "fresh" else (False if fr[0] == "alias" and any(x[0] != "<global>" for x in fr[1]) else None),
                    "`%s` may be (a view of) the array's own buffer" % (tm,), node=r.ast, key="fresh-result", engine="E3")
+
+
+def padded_degenerate(ctx, tk):
+    """arrays without cells (zero rows, or only empty rows) have a padded matrix too: (n_rows, 0).  `reshape((-1, w))` cannot infer
+    the row count when w == 0 (ValueError), and the longest row of zero rows does not exist (np.max of an empty array raises)"""
+    f = ctx.func(RA + "_as_padded_matrix")
+    fa = ctx.fa(f)
+
+    def sized(n):
+        for test, truth in fa.cfg.facts_at(n):
+            for y in ast.walk(test.ast):
+                if (isinstance(y, ast.Attribute) and y.attr in ("size", "n_rows")) or (isinstance(y, ast.Call) and isinstance(y.func, ast.Name) and y.func.id == "len"):
+                    return True
+        return False
+    for n in fa.cfg.stmts():
+        if n.ast is None:
+            continue
+        for x in ast.walk(n.ast):
+            if isinstance(x, ast.Call) and isinstance(x.func, ast.Attribute) and x.func.attr == "reshape":
+                args = x.args[0].elts if (len(x.args) == 1 and isinstance(x.args[0], (ast.Tuple, ast.List))) else x.args
+                inferred = any(isinstance(a, ast.UnaryOp) and isinstance(a.op, ast.USub) and isinstance(a.operand, ast.Constant) and a.operand.value == 1 for a in args)
+                if inferred and len(args) == 2:
+                    ctx.decide("C08.g", f, "the padded matrix of an array whose rows are all empty is (n_rows, 0): its row count is not left to reshape(-1, width)",
+                               True if sized(n) else False, "`%s`: with a width of 0 numpy cannot infer the number of rows (ValueError) - an array of only empty rows has no padded matrix" % ast.unparse(x),
+                               node=x, key="reshape-width-0", engine="KB")
+            if isinstance(x, ast.Call) and isinstance(x.func, ast.Attribute) and x.func.attr in ("max", "amax") and not any(k.arg == "initial" for k in x.keywords):
+                ctx.decide("C08.g", f, "the longest row is asked for only when there is a row", True if sized(n) else False,
+                           "`%s` raises ValueError for an array with zero rows" % ast.unparse(x), node=x, key="max-of-no-rows", engine="KB")
 
 
 def npsindexable(ctx, tk):
